@@ -40,21 +40,22 @@ Print Assumptions C14_request_sequence_zstd_nodict_partial.
     data request, exactly [spec_chunk_data] of that entry - with its declared size - and for
     a stored-data request exactly the stored bytes, whose hash is the index digest.  The
     result of a request is a function of the entry alone, hence independent of the history.
-    Side condition, zstd only: no entry without stored bytes declares a size (no real zstd
-    stream decodes nothing to something; for type 0 the specification already excludes it).
+    No side condition on the file: since zck_get_chunk_data starts the chunk checksum afresh
+    for every request and finishes an uncompressed chunk that an exact-size buffer left open
+    (checksum and size check before the data is accepted), even an entry without stored bytes
+    that declares a size behaves the same on a fresh context as after any other request.
     [fuel] only has to cover the largest stored chunk + 4 loop iterations. *)
 Theorem C14_request_sequence :
   forall (H : N -> bytes -> bytes) (zdecomp : option bytes -> bytes -> N -> option bytes) p f h fuel content rq,
   wf_bytes f -> parse_impl H p f = POk h ->
   spec_verify H h f = true -> spec_decode zdecomp h f = Some content ->
-  (is_zstd h = true -> forall c, In c (h_chunks h) -> c_clen c = 0 -> c_ulen c = 0) ->
   (forall c, In c (h_chunks h) -> (N.to_nat (c_clen c) + 4 <= fuel)%nat) ->
   Forall (req_valid h) rq ->
   Forall2 (req_result_spec H zdecomp h f) rq (run_reqs H zdecomp h f fuel (open_state h f) rq).
 Proof.
-  intros H zdecomp p f h fuel content rq Hwf Hp Hv Hd Hph Hfuel Hval.
+  intros H zdecomp p f h fuel content rq Hwf Hp Hv Hd Hfuel Hval.
   destruct (header_facts H p f h Hwf Hp) as (A & B & C).
-  exact (requests_all H zdecomp h f content fuel A B Hv Hd Hph Hfuel rq Hval).
+  exact (requests_all H zdecomp h f content fuel A B Hv Hd Hfuel rq Hval).
 Qed.
 Print Assumptions C14_request_sequence.
 
